@@ -77,6 +77,11 @@ func c02Variants(reduced bool) []opVariant {
 			_, c2 := c12(sch)
 			return &gen.Where{Kw: "where", Pred: &gen.Call{Func: "isnotnull", Args: []gen.Expr{colRef(c2)}}}, keep(sch)
 		}},
+		{"where-or", func(sch []string, i int) (gen.Op, []string) {
+			// a predicate whose outermost operator binds more loosely than the `and` a compiler may join filters with
+			c1, c2 := c12(sch)
+			return &gen.Where{Kw: "where", Pred: &gen.Binary{Op: "or", X: &gen.Binary{Op: ">", X: colRef(c1), Y: num("1")}, Y: &gen.Binary{Op: "==", X: colRef(c2), Y: num("2")}}}, keep(sch)
+		}},
 		{"filter-ne", func(sch []string, i int) (gen.Op, []string) {
 			c1, _ := c12(sch)
 			return &gen.Where{Kw: "filter", Pred: &gen.Binary{Op: "!=", X: colRef(c1), Y: num("2")}}, keep(sch)
@@ -434,7 +439,7 @@ func c02DBs(maxRows int) []rel.DB {
 }
 
 func c02Main(r *run.Runner) {
-	r.Rule = "explicit-state exploration of the subquery splitter: every operator sequence of length <= d over 34 schema-aware operator variants (all eleven operators, from base table T(a,b)) is compiled by the real compiler; the emitted SQL is read by the independent reader and executed by a list-semantics SQL evaluator on EVERY database instance (all row lists of <= m rows over a in {NULL,1,2}, b in {1,2}); " +
+	r.Rule = "explicit-state exploration of the subquery splitter: every operator sequence of length <= d over 35 schema-aware operator variants (all eleven operators, from base table T(a,b)) is compiled by the real compiler; the emitted SQL is read by the independent reader and executed by a list-semantics SQL evaluator on EVERY database instance (all row lists of <= m rows over a in {NULL,1,2}, b in {1,2}); " +
 		"plus a deep-and-narrow sweep (d+2 operators over canonical variants), wide families (k columns / terms / aggregates / keys / operators for every k in 1..65, thorough ..257), every spelling of sort terms (direction x nulls clause x defaults) and of the two-keyword operators, and programs whose names coincide (alias = table, = dropped column, = as-name, = implicit column); the result must equal what a left-to-right interpreter of the source pipeline returns: same column names in order, same rows, same order wherever a sort determines it. states = operator sequences explored (each is a distinct state of the splitter: last operator kind, pending sort/take, names in scope), transitions = operator applications, traces validated = (sequence, database) executions compared"
 	r.Assume = []string{"list semantics: FROM/CTE order is preserved, ORDER BY is stable, GROUP BY yields groups in first-appearance order", "aggregates and scalar primitives are those of package sem"}
 	d, m := 3, 3
